@@ -23,6 +23,9 @@ SEPS1 = [(",", b","), (";", b";"), ("|", b"|"), (":", b":"), ("semicolon", b";")
          ("colon", b":"), ("equals", b"="), ("space", b" "), ("tab", b"\t"), ("slash", b"/"), ("ascii_us", b"\x1f")]
 SEPS_MULTI = [(";;", b";;"), ("::", b"::"), ("=>", b"=>"), (", ", b", "), ("usv_fs", b"\xe2\x90\x9f"), ("<sep>", b"<sep>")]
 
+# custom record separators (command-line spelling, bytes): single bytes, multi-byte, last byte repeated inside, named aliases
+RSEPS = [(";", b";"), ("pipe", b"|"), ("ascii_rs", b"\x1e"), (";;", b";;"), ("||", b"||"), ("usv_rs", b"\xe2\x90\x9e"), ("<rs>", b"<rs>"), ("abab", b"abab"), ("aab", b"aab")]
+
 ALPHA_WEIGHTED = (
     [b"a", b"b", b"c", b"x", b"y", b"1", b"2", b"0"] * 6 +
     [b",", b";", b"\t", b" ", b"=", b":", b"|", b'"', b"\\", b"\r", b"\n", b"\r\n", b"-", b".", b"_", b"#", b"'"] * 3 +
@@ -122,12 +125,17 @@ def gen_write_case(ctx, fmt):
             fs = rng.choice(SEPS1 + SEPS_MULTI)
             ps = rng.choice([s for s in SEPS1 + SEPS_MULTI if not (set(s[1]) & set(fs[1]))])
             args += ["--ofs", fs[0], "--ops", ps[0]]
+        rs = None
+        if rng.random() < 0.25:       # custom record separator (single- and multi-character line readers)
+            rs = rng.choice([r for r in RSEPS if not (set(r[1]) & set(fs[1] + ps[1]))])
+            crlf = False
+            args += ["--ors", rs[0]]
         if crlf:
             args += ["--ors", "crlf"]
-        c["flags"] = [crlf]; c["seps"] = [fs[1], ps[1]]
+        c["flags"] = [crlf]; c["seps"] = [fs[1], ps[1]] + ([rs[1]] if rs else [])
         in_dom = rng.random() < 0.85
-        valpha = alpha_without(fs[1] + b"\n") if in_dom else ALPHA_WEIGHTED
-        kalpha = alpha_without(fs[1] + ps[1] + b"\n") if in_dom else ALPHA_WEIGHTED
+        valpha = alpha_without(fs[1] + b"\n" + (rs[1] if rs else b"")) if in_dom else ALPHA_WEIGHTED
+        kalpha = alpha_without(fs[1] + ps[1] + b"\n" + (rs[1] if rs else b"")) if in_dom else ALPHA_WEIGHTED
         recs = []
         for i in range(nrec):
             n = gen_nfields(rng, big and i < 2) if rng.random() > 0.07 else 0
@@ -238,11 +246,16 @@ def gen_write_case(ctx, fmt):
         if rng.random() < 0.4:
             fs = rng.choice(SEPS1 + SEPS_MULTI)
             args += ["--ofs", fs[0]]
+        rs = None
+        if fs[0] and rng.random() < 0.4:
+            rs = rng.choice([r for r in RSEPS if not (set(r[1]) & set(fs[1]))])
+            crlf = False
+            args += ["--ors", rs[0]]
         if crlf:
             args += ["--ors", "crlf"]
-        c["flags"] = [crlf]; c["seps"] = [fs[1]]
+        c["flags"] = [crlf]; c["seps"] = [fs[1]] + ([rs[1]] if rs else [])
         in_dom = rng.random() < 0.85
-        valpha = alpha_without(fs[1] + b"\n \t") if in_dom else ALPHA_WEIGHTED
+        valpha = alpha_without(fs[1] + b"\n \t" + (rs[1] if rs else b"")) if in_dom else ALPHA_WEIGHTED
         recs = []
         for i in range(nrec):
             n = gen_nfields(rng, big and i < 2) if rng.random() > 0.07 else 0
@@ -259,7 +272,7 @@ def gen_boundary_case(ctx):
     want_crlf = rng.random() < 0.7
     while True:
         c = gen_write_case(ctx, fmt)
-        if ("--ors" in c["args"]) == want_crlf:
+        if ("crlf" in c["args"]) == want_crlf and ("--ors" in c["args"]) == want_crlf:      # no custom ORS here
             break
     n, nrec = rng.randint(1, 4), rng.randint(1, 3)
     headerless = fmt in ("tsv", "csv", "csvlite") and c["flags"][0]
@@ -311,13 +324,14 @@ def in_domain(c):
                 return False
         return True
     if fmt == "dkvp":
-        fs, ps = c["seps"]; crlf = c["flags"][0]
+        fs, ps = c["seps"][:2]; crlf = c["flags"][0]
+        rs = c["seps"][2] if len(c["seps"]) > 2 else b""
         for r in recs:
             ks = [k for k, _ in r]
             if len(set(ks)) != len(ks):
                 return False
             for k, v in r:
-                if set(k) & (set(fs) | set(ps) | {10}) or set(v) & (set(fs) | {10}):
+                if set(k) & (set(fs) | set(ps) | set(rs) | {10}) or set(v) & (set(fs) | set(rs) | {10}):
                     return False
             if r and not crlf and r[-1][1].endswith(b"\r"):
                 return False
@@ -390,11 +404,12 @@ def in_domain(c):
         return True
     if fmt == "nidx":
         fs = c["seps"][0]; crlf = c["flags"][0]
+        rs = c["seps"][1] if len(c["seps"]) > 1 else b""
         for r in recs:
             if [k for k, _ in r] != [b"%d" % (i + 1) for i in range(len(r))]:
                 return False
             for k, v in r:
-                if v == b"" or set(v) & (set(fs) | {10, 32, 9}):
+                if v == b"" or set(v) & (set(fs) | set(rs) | {10, 32, 9}):
                     return False
             if r and not crlf and r[-1][1].endswith(b"\r"):
                 return False
@@ -575,10 +590,12 @@ def read_variants(ctx, c):
             + ([] if dd else ["--no-dedupe-field-names"]) + (["--allow-ragged-csv-input"] if rg else []) + (["--lazy-quotes"] if lazy else [])
         out.append((args, [headerless, lazy, dd, rg], [comma]))
     elif fmt == "dkvp":
-        fs, ps = c["seps"]
+        fs, ps = c["seps"][:2]
+        rs = c["seps"][2:]
         dd = rng.random() < 0.85
-        args = ["--idkvp"] + (["--ifs", sepname(fs), "--ips", sepname(ps)] if (fs, ps) != (b",", b"=") else []) + ([] if dd else ["--no-dedupe-field-names"])
-        out.append((args, [False, dd], [fs, ps]))
+        args = ["--idkvp"] + (["--ifs", sepname(fs), "--ips", sepname(ps)] if (fs, ps) != (b",", b"=") else []) + ([] if dd else ["--no-dedupe-field-names"]) \
+            + (["--irs", rsname(rs[0])] if rs else [])
+        out.append((args, [False, dd], [fs, ps] + rs))
     elif fmt == "dkvpx":
         fs, ps = c["seps"]
         dd = rng.random() < 0.85
@@ -610,11 +627,16 @@ def read_variants(ctx, c):
             out.append((["--ijson"] if rng.random() < 0.7 else ["--ijsonl"], [], []))
     elif fmt == "nidx":
         fs = c["seps"][0]
-        if fs == b" " and rng.random() < 0.6:
+        rs = c["seps"][1:]
+        if fs == b" " and not rs and rng.random() < 0.6:
             out.append((["--inidx"], [False, True], [fs]))          # default: whitespace regex
         else:
-            out.append((["--inidx", "--ifs", sepname(fs), "--repifs"], [True, False], [fs]))
+            out.append((["--inidx", "--ifs", sepname(fs), "--repifs"] + (["--irs", rsname(rs[0])] if rs else []), [True, False], [fs] + rs))
     return out
+
+
+def rsname(b):
+    return {v: k for k, v in RSEPS}[b]
 
 
 def sepname(b):
@@ -806,7 +828,14 @@ def gen_extra_read_cases(ctx, n):
             rep = kind == "dkvp-repifs"
             dd = rng.random() < 0.7
             args = ["--idkvp"] + (["--ifs", fs[0], "--ips", ps[0]] if fs[0] else []) + (["--repifs"] if rep else []) + ([] if dd else ["--no-dedupe-field-names"])
-            jobs.append({"fmt": "dkvp", "args": args, "flags": [rep, dd], "seps": [fs[1], ps[1]], "text": text, "kind": kind})
+            rs = []
+            if rng.random() < 0.4:      # custom IRS on hand-made text: pieces of the IRS, unterminated last lines
+                r = rng.choice(RSEPS)
+                rs = [r[1]]
+                parts = [b"".join(rng.choice(alpha + [r[1][-1:], r[1][:1], r[1][:-1]] * 3) for _ in range(rng.randint(0, 8))) for _ in range(rng.randint(1, 4))]
+                text = r[1].join(parts) + rng.choice([r[1], r[1], b"", r[1][-1:], r[1][:-1]])
+                args += ["--irs", r[0]]
+            jobs.append({"fmt": "dkvp", "args": args, "flags": [rep, dd], "seps": [fs[1], ps[1]] + rs, "text": text, "kind": kind})
         else:
             alpha = [p for p in ALPHA_WEIGHTED if b"\n" not in p] + [b" ", b" ", b"  ", b"\t", b" \t "] * 6
             lines = [b"".join(rng.choice(alpha) for _ in range(rng.randint(0, 14))) for _ in range(rng.randint(1, 4))]
@@ -918,7 +947,7 @@ def run(ctx):
                        "go-csv behaviour after a quoting error inside a record is not modelled (cases skipped and counted)",
                        "comma/IFS bytes below 0x80"]
     forbidden_gate(ctx, ["Base", "C01"])
-    ok, why = check_props(ctx, "C01/Props.v", ["C01/Harness.vo", "C01/ProofsDkvp.vo", "C01/ProofsTsv.vo", "C01/ProofsCsv.vo", "C01/ProofsCsv2.vo", "C01/ProofsJson.vo", "C01/ProofsXtab.vo", "C01/ProofsLite.vo", "C01/ProofsPprint.vo", "C01/ProofsBarred.vo", "C01/ProofsMd.vo", "C01/ProofsDkvpx.vo"])
+    ok, why = check_props(ctx, "C01/Props.v", ["C01/Harness.vo", "C01/ProofsDkvp.vo", "C01/ProofsTsv.vo", "C01/ProofsCsv.vo", "C01/ProofsCsv2.vo", "C01/ProofsJson.vo", "C01/ProofsXtab.vo", "C01/ProofsLite.vo", "C01/ProofsPprint.vo", "C01/ProofsBarred.vo", "C01/ProofsMd.vo", "C01/ProofsDkvpx.vo", "C01/ProofsIrs.vo"])
 
     # ---- generate and run the writers
     per_fmt = {"tsv": 180, "csv": 240, "dkvp": 120, "nidx": 70, "json": 120, "xtab": 120, "csvlite": 140, "pprint": 220, "markdown": 120, "dkvpx": 150} if quick else {"tsv": 4000, "csv": 5000, "dkvp": 3000, "nidx": 1500, "json": 3000, "xtab": 2500, "csvlite": 2500, "pprint": 4000, "markdown": 2500, "dkvpx": 3000}
@@ -1104,6 +1133,7 @@ WITNESSES = [
 READ_PROBES = [
     ("regression-of-ff74c4ac8-barred-implicit-header-panic", ["--ipprint", "--barred-input", "--implicit-csv-header"], b"abc\n| x | y |\n", [[(b"1", b"x"), (b"2", b"y")]]),
     ("regression-of-6be21e050-markdown-alignment-colons", ["--imd"], b"| a | b |\n| ---: | :--- |\n| 1 | x |\n", [[(b"a", b"1"), (b"b", b"x")]]),
+    ("regression-of-5d07e29dc-multi-char-irs-repeated-last-byte", ["--idkvp", "--irs", ";;"], b"a=1;;b=2;;c=3;", [[(b"a", b"1")], [(b"b", b"2")], [(b"c", b"3;")]]),
     ("regression-of-a96f6ff95-multi-char-irs-drops-chunk", ["--idkvp", "--irs", "usv_rs"], b"a=x\xc3\x9ey\xe2\x90\x9eb=2\xe2\x90\x9e", [[(b"a", b"x\xc3\x9ey")], [(b"b", b"2")]]),
 ]
 
